@@ -38,11 +38,11 @@ func VerifRows(m consoleui.Mode) []VerifRow {
 
 // VerifCursor returns the cursor row (ok=false when there is no memory).
 func VerifCursor(m consoleui.Mode) (int, bool) {
-	c := m.(*mode).view.c
-	if c == nil {
+	v := m.(*mode).view
+	if v.c == nil || len(v.lines) == 0 {
 		return 0, false
 	}
-	return c.Value(), true
+	return v.c.Value(), true
 }
 
 // VerifView returns the view of a memory-view mode.
